@@ -65,6 +65,7 @@ static struct action acts[MAXACT];
 static int nact;
 static long stepno, refused_r, refused_w, refused_r_midline;
 static int flags, lf_count, in_probe, activity, midline;
+static int w_held;      /* harness-side knowledge: a command handler returned HOLD and no release has been accepted since */
 static int mtx_on, lockn, unlockn, lockfail[MAXFAIL], nlockfail, unlockfail[MAXFAIL], nunlockfail, locked;
 static int last_refused_byte = -1;
 static int in_service;
@@ -432,6 +433,8 @@ static void do_act(int kind, int a1, int a2, const uint8_t *a3, size_t a3len)
                 bracket_begin("hold_exit");
                 r = cat_hold_exit(at, a1 ? CAT_STATUS_ERROR : CAT_STATUS_OK);
                 bracket_end("hold_exit", r);
+                if (r == CAT_STATUS_OK || r == CAT_STATUS_ERROR_MUTEX_UNLOCK)
+                        w_held = 0;     /* (a failed unlock comes after the release was recorded) */
                 emit("%c %ld holdexit %d %d\n", in_service ? 'a' : 'A', stepno, a1 ? 1 : 0, r);
                 break;
         case WA_ISFULL:
@@ -560,6 +563,10 @@ static cat_return_state h_text(const struct cat_command *c, uint8_t *d, size_t *
                 n_u_hold++;   /* parks the command FSM (outside every statement, DESIGN 4.6): it may then emit a result code of its own */
         if (s && s->act)
                 do_act(s->act, s->a1, s->a2, s->a3, s->a3len);
+        if (fsm == 0 && code == CAT_RETURN_STATE_HOLD)
+                w_held = 1;
+        if (fsm == 1 && (code == CAT_RETURN_STATE_HOLD_EXIT_OK || code == CAT_RETURN_STATE_HOLD_EXIT_ERROR))
+                w_held = 0;
         return (cat_return_state)code;
 }
 
@@ -589,6 +596,8 @@ static cat_return_state h_write(const struct cat_command *c, const uint8_t *d, s
         hash_long(&cb_hash, 200); hash_long(&cb_hash, ci); hash_long(&cb_hash, (long)n); hash_long(&cb_hash, (long)a); hash_bytes(&cb_hash, d, n); hash_long(&cb_hash, code);
         if (s && s->act)
                 do_act(s->act, s->a1, s->a2, s->a3, s->a3len);
+        if (code == CAT_RETURN_STATE_HOLD)
+                w_held = 1;
         return (cat_return_state)code;
 }
 
@@ -605,6 +614,8 @@ static cat_return_state h_run(const struct cat_command *c)
         hash_long(&cb_hash, 300); hash_long(&cb_hash, ci); hash_long(&cb_hash, code);
         if (s && s->act)
                 do_act(s->act, s->a1, s->a2, s->a3, s->a3len);
+        if (code == CAT_RETURN_STATE_HOLD)
+                w_held = 1;
         return (cat_return_state)code;
 }
 
@@ -732,6 +743,7 @@ void w_reset(void)
         stepno = 0;
         flags = 0;
         mtx_on = lockn = unlockn = nlockfail = nunlockfail = locked = 0;
+        w_held = 0;
         refused_r = refused_w = refused_r_midline = 0;
         lf_count = in_probe = activity = midline = 0;
         in_service = 0;
@@ -1120,7 +1132,7 @@ void w_run(long budget, long stall_n)
                         /* a parser parked in HOLD can make no progress without a release: whatever cat_service returns meanwhile
                          * (the statements allow BUSY as well as OK there), it is a stall for the harness, never "quiescent
                          * between lines" */
-                        if ((!mtx_on || (flags & WF_SAMPLE_LOCKED)) && cat_is_hold(at) == CAT_STATUS_HOLD) {
+                        if ((!mtx_on || (flags & WF_SAMPLE_LOCKED)) ? cat_is_hold(at) == CAT_STATUS_HOLD : w_held) {
                                 okrun = 0;
                                 idle = idle_before;
                                 if (++idle >= stall_n) {
